@@ -13,7 +13,7 @@
 (***************************************************************************)
 EXTENDS Naturals, Sequences, FiniteSets
 
-CONSTANTS Schemes, Hosts, Ports, Users, Passwords, Paths, Queries, Fragments, HostHeaders, Roots,
+CONSTANTS Schemes, BuildSchemes, Hosts, Ports, Users, Passwords, Paths, Queries, Fragments, HostHeaders, Roots,
           DefaultPort,   \* set of <<scheme, port>>
           EditKeys       \* set of sets of component names that are replaced together
 
@@ -47,7 +47,7 @@ NewValue(k) == CASE k = "scheme" -> Schemes [] k = "user" -> Users \cup {None} [
                  [] k = "fragment" -> Fragments
 
 Init == \/ /\ mode = "build"
-           /\ inp \in [scheme : Schemes, server : (Hosts \X Ports), hostHeader : HostHeaders \cup {None}, root : Roots, path : Paths, query : Queries]
+           /\ inp \in [scheme : BuildSchemes, server : (Hosts \X Ports), hostHeader : HostHeaders \cup {None}, root : Roots, path : Paths, query : Queries]
            /\ url = U(None, None, None, None, None, None, None, None) /\ edit = <<>> /\ out = url
         \/ /\ mode = "edit"
            /\ url \in {u \in BaseUrls : ValidBase(u)}
